@@ -10,7 +10,7 @@ import numpy as np
 
 from .. import common as C
 from . import _an
-from .C06 import LD, U, tone, omega_of, hw_bins, viol, full, remember, win_opts, ref_window
+from .C06 import LD, U, tone, omega_of, hw_bins, viol, full, remember, win_opts, ref_window, win_transform
 
 PROP = "C12"
 GEN_REGIONS = ["CoreKernels"]
@@ -73,8 +73,15 @@ def gen_leak(rng: np.random.Generator, thorough: bool, i: int) -> Dict[str, Any]
         deltas += [side * min(d, room) for d in ds]
     multi = rng.random() < 0.25 and L <= 4096
     N = L if not multi else int(L * int(rng.integers(2, 5)) + rng.integers(0, L))
+    phi = float(rng.uniform(0, 2 * np.pi))
+    if deltas and not multi and L <= 4096 and rng.random() < 0.35:
+        # adversarial phase: the two images e^{i phi} W(w-w0) and e^{-i phi} W(w+w0) add in phase at one of the first offsets
+        d = deltas[int(rng.integers(0, min(4, len(deltas))))]
+        w = _an.window("kaiser", L, P)
+        t0, t1 = 2 * np.pi * m0 / L, 2 * np.pi * (m0 + d) / L
+        phi = float((np.angle(win_transform(w, t1 + t0)) - np.angle(win_transform(w, t1 - t0))) / 2 + (np.pi if rng.random() < 0.5 else 0.0))
     return {"kind": "leak", "L": L, "N": N, "P": P, "fs": float(rng.choice([1.0, 2.0, 1000.0, float(10 ** rng.uniform(-2, 4))])),
-            "m0": m0, "phi": float(rng.uniform(0, 2 * np.pi)), "A": float(rng.choice([1.0, 1.0, float(10 ** rng.uniform(-3, 3))])),
+            "m0": m0, "phi": phi, "A": float(rng.choice([1.0, 1.0, float(10 ** rng.uniform(-3, 3))])),
             "deltas": deltas, "olap": 0.0 if not multi else float(rng.choice([0.0, 0.5, float(rng.uniform(0, 0.9))])),
             "via": str(rng.choice(["method", "func"])), "win": str(rng.choice(["kaiser", "kaiser", "np_kaiser", "sp_kaiser"]))}
 
